@@ -375,6 +375,19 @@ func Corpus(c *Ctx) []*FileSpec {
 		add("special", "special-field-names", true, f)
 	}
 
+	{ // a oneof whose member names collide (in CamelCase) with a message and an enum nested in the same parent:
+		// the message generators append '_' to the wrapper type names (Event_Created_ / Event_Level_)
+		f := c.File("oneofclash", "proto3")
+		pkg := c.Pkg("oneofclash")
+		ev := Msg("Event", F("id", 10, Opt, "int64"))
+		ev.NestedType = append(ev.NestedType, Msg("Created", F("n", 1, Opt, "int32")))
+		ev.EnumType = append(ev.EnumType, &descriptorpb.EnumDescriptorProto{Name: proto.String("Level"), Value: []*descriptorpb.EnumValueDescriptorProto{
+			{Name: proto.String("L0"), Number: proto.Int32(0)}, {Name: proto.String("L1"), Number: proto.Int32(1)}}})
+		Oneof(ev, "kind", F("created", 1, Opt, FullName(pkg, "Event", "Created")), F("level", 2, Opt, "enum:"+FullName(pkg, "Event", "Level")), F("note", 3, Opt, "string"))
+		f.MessageType = append(f.MessageType, ev)
+		add("oneofclash", "oneof-member-named-like-a-nested-type", true, f)
+	}
+
 	// ---- imports: types that live in ANOTHER .proto / Go package than the file being generated ----
 	{ // the imported file: its Go package name (impdeppb) differs from the last element of its import path (impdep)
 		f := c.File("impdep", "proto3")
